@@ -28,22 +28,76 @@ def gen_cases(seed: int, n_files: int, max_depth: int):
             langs = ["py", "ts", "js", "rs"]
         else:
             g = skel.Gen(r, skel.LANG_KINDS[lk], skel.LANG_FKINDS[lk], max_depth=max_depth,
-                         else_single_if_ok=(lk != "py"))
+                         else_single_if_ok=(lk != "py"), curried=(lk == "ts"))
             if lk == "ts":
                 g.max_handlers = 1
             langs = [mode]
         items = g.file()
         if lk == "ts":
             _one_catch(items)
+        group = []
         for lang in langs:
             if not skel.lang_ok(lang, items):
                 continue
             text, placed = skel.render(lang, items, top_offset=r.choice([0, 0, 1, 3]))
             dmax = max([skel.doc_depth(f[1]) for f in skel.functions_of(placed)], default=1)
-            cases.append({"i": i, "mode": mode, "lang": lang, "items": placed, "text": text,
-                          "limits": list(range(1, dmax + 3)), "dmax": dmax,
-                          "via": "cli" if r.random() < 0.04 else "api"})
+            c = {"i": i, "mode": mode, "lang": lang, "items": placed, "text": text,
+                 "limits": list(range(1, dmax + 3)), "dmax": dmax,
+                 "via": "cli" if r.random() < 0.04 else "api"}
+            cases.append(c)
+            group.append(c)
+        if mode == "common" and len(group) >= 3 and r.random() < 0.5:
+            # one project, one Orchestrator run over all languages, documented per-language overrides
+            # (nesting.<language>.max_nesting_depth) next to a global limit
+            dmax = max(c["dmax"] for c in group)
+            cfg = {"max_nesting_depth": r.randint(1, dmax + 2)}
+            for lang in group:
+                if r.random() < 0.6:
+                    cfg[LANG_NAME[lang["lang"]]] = {"max_nesting_depth": r.randint(1, dmax + 2)}
+            order = list(range(len(group)))
+            r.shuffle(order)
+            cases.append({"i": i, "mode": "project", "via": "project", "members": group, "config": {"nesting": cfg},
+                          "order": order, "lang": "project", "dmax": dmax})
     return cases
+
+
+LANG_NAME = {"py": "python", "ts": "typescript", "js": "javascript", "rs": "rust"}
+
+
+def effective_limit(cfg: dict, lang: str) -> int:
+    """documented meaning of the nesting section: a language block overrides the global limit for that language"""
+    sec = cfg["nesting"]
+    return sec.get(LANG_NAME[lang], {}).get("max_nesting_depth", sec["max_nesting_depth"])
+
+
+def run_project(case):
+    with scratch_dir("tv-c01p-") as d:
+        files = []
+        for k, m in enumerate(case["members"]):
+            f = d / (f"m{k}" + skel.EXT[m["lang"]])
+            f.write_text(m["text"])
+            files.append(f)
+        orch = make_orchestrator(d, case["config"])
+        vs = orch.lint_files([files[k] for k in case["order"]])
+        by_file = {str(f): [] for f in files}
+        for v in vs:
+            by_file.setdefault(str(v.file_path), []).append({"rule_id": v.rule_id, "line": v.line, "column": v.column, "message": v.message})
+        return {"members": [_parse(by_file[str(f)]) for f in files], "failures": drain_failures()}
+
+
+def expand_projects(cases, impls):
+    """a project run becomes one ordinary judged case per member file, at that language's effective limit"""
+    out_c, out_i = [], []
+    for c, im in zip(cases, impls):
+        if c.get("via") != "project":
+            out_c.append(c)
+            out_i.append(im)
+            continue
+        for m, runs in zip(c["members"], im["members"]):
+            lim = effective_limit(c["config"], m["lang"])
+            out_c.append({**m, "limits": [lim], "via": "project", "mode": "project", "project_config": c["config"]})
+            out_i.append({"runs": [runs], "failures": im["failures"]})
+    return out_c, out_i
 
 
 def _one_catch(nodes):
@@ -83,6 +137,8 @@ _orch = None
 def run_impl(case):
     """implementation output for every limit: list of sorted [line, col, name, depth]"""
     global _orch
+    if case.get("via") == "project":
+        return run_project(case)
     with scratch_dir("tv-c01-") as d:
         f = d / ("case" + skel.EXT[case["lang"]])
         f.write_text(case["text"])
@@ -147,6 +203,7 @@ def run(tier: str, seed: int, replay: str | None = None) -> int:
     else:
         cases = corpus_cases() + gen_cases(seed, n_files, max_depth)
     impls = pool_map(run_impl, cases)
+    cases, impls = expand_projects(cases, impls)
     with scratch_dir("tv-c01-coq-") as wd:
         try:
             verdicts = judge(cases, impls, wd)
